@@ -61,6 +61,14 @@ def extra_families():
         [Rule("a *", [Rule("c *", [Rule("e ~", rewrite=True)], ordered=True)], rewrite=True)],
         [Rule("a *", [Rule("c ~", rewrite=True, glob=True)], rewrite=True)],
         [Rule("a *", [Rule("c *", [Rule("e *", rewrite=True), Rule("d")])], rewrite=True), Rule("b")],
+    ]), ("X2-ignore-case-next-to-case-sensitive-rules", [
+        # an %ignore_case rule next to ordinary rules whose rows hold upper-case letters (huawei.rul: 'ipv6 nd ra ...' next
+        # to 'description ~'): only the rows of the flagged rule are folded
+        [Rule("B *"), Rule("d *", icase=True)],
+        [Rule("a *", [Rule("C ~"), Rule("d *", icase=True)]), Rule("B")],
+        [Rule("a *", [Rule("d", icase=True), Rule("E *", ordered=True, nkeys=2)])],
+        [Rule("A *", [Rule("d *", icase=True), Rule("C *", rewrite=True)])],
+        [Rule("G *", glob=True), Rule("a *", [Rule("d *", icase=True)])],
     ])]
 
 
@@ -89,7 +97,9 @@ def known(level, cfg):
     for row, ch in cfg:
         g = refrb.govern(level, row)
         if g is not None:
-            out.append((row, ch, g))
+            # rows of an %ignore_case rule are compared (and reported) without regard to letter case: the diff speaks
+            # about the lower-cased row; every other row must appear in the diff letter for letter
+            out.append((row.lower() if g[0].icase else row, ch, g))
     return out
 
 
